@@ -26,15 +26,15 @@ Proof.
     + intros [K|[K1 [K2|K2]]]; [auto|subst; auto|auto].
 Qed.
 
-Lemma propagate_t_same : forall fuel s work s', propagate_t fuel s work = Ok s' ->
+Lemma propagate_t_o_same : forall pord fuel s work s', propagate_t_o pord fuel s work = Ok s' ->
   s_nodes s' = s_nodes s /\ s_bwd s' = s_bwd s /\ s_ts s' = s_ts s /\ s_log s' = s_log s /\
   (forall a b, sdirty s a b -> sdirty s' a b) /\
   (forall x, In x (s_visited s) -> In x (s_visited s')).
 Proof.
-  induction fuel as [|f IH]; intros s work s' H; [discriminate|]. cbn [propagate_t] in H.
+  intros pord; induction fuel as [|f IH]; intros s work s' H; [discriminate|]. cbn [propagate_t_o] in H.
   destruct work as [|x r]; [inversion H; subst; auto 10|].
   destruct (nmem x (s_visited s)); [eapply IH; eauto|]. cbv zeta in H.
-  destruct (mark_callers_t (set_visited s (x :: s_visited s)) x (callers_of (set_visited s (x :: s_visited s)) x) r)
+  destruct (mark_callers_t (set_visited s (x :: s_visited s)) x (pord (set_visited s (x :: s_visited s)) x (callers_of (set_visited s (x :: s_visited s)) x)) r)
     as [s2 work'] eqn:Em.
   apply mark_callers_t_spec in Em. destruct Em as (_ & B & C & D & E & F & G).
   apply IH in H. destruct H as (H1 & H2 & H3 & H4 & H5 & H6).
@@ -56,33 +56,51 @@ Proof.
   induction cs as [|c r IH]; intros s x work s2 work' H; cbn [mark_callers_t] in H; [inversion H; auto|].
   cbv zeta in H. apply IH in H. exact H.
 Qed.
-Lemma propagate_we : forall fuel s work s', propagate fuel s work = Ok s' -> s_world s' = s_world s /\ s_ext s' = s_ext s.
+Lemma propagate_o_we : forall pord fuel s work s', propagate_o pord fuel s work = Ok s' -> s_world s' = s_world s /\ s_ext s' = s_ext s.
 Proof.
-  induction fuel as [|f IH]; intros s work s' H; [discriminate|]. cbn [propagate] in H.
+  intros pord; induction fuel as [|f IH]; intros s work s' H; [discriminate|]. cbn [propagate_o] in H.
   destruct work as [|x r]; [inversion H; auto|].
   destruct (nmem x (s_visited s)); [eapply IH; eauto|]. cbv zeta in H.
-  destruct (mark_callers (set_visited s (x :: s_visited s)) x (callers_of (set_visited s (x :: s_visited s)) x) r) as [s2 work'] eqn:Em.
+  destruct (mark_callers (set_visited s (x :: s_visited s)) x (pord (set_visited s (x :: s_visited s)) x (callers_of (set_visited s (x :: s_visited s)) x)) r) as [s2 work'] eqn:Em.
   apply mark_callers_we in Em. apply IH in H. cbn in Em. destruct Em, H. split; congruence.
 Qed.
-Lemma propagate_t_we : forall fuel s work s', propagate_t fuel s work = Ok s' -> s_world s' = s_world s /\ s_ext s' = s_ext s.
+Lemma propagate_t_o_we : forall pord fuel s work s', propagate_t_o pord fuel s work = Ok s' -> s_world s' = s_world s /\ s_ext s' = s_ext s.
 Proof.
-  induction fuel as [|f IH]; intros s work s' H; [discriminate|]. cbn [propagate_t] in H.
+  intros pord; induction fuel as [|f IH]; intros s work s' H; [discriminate|]. cbn [propagate_t_o] in H.
   destruct work as [|x r]; [inversion H; auto|].
   destruct (nmem x (s_visited s)); [eapply IH; eauto|]. cbv zeta in H.
-  destruct (mark_callers_t (set_visited s (x :: s_visited s)) x (callers_of (set_visited s (x :: s_visited s)) x) r) as [s2 work'] eqn:Em.
+  destruct (mark_callers_t (set_visited s (x :: s_visited s)) x (pord (set_visited s (x :: s_visited s)) x (callers_of (set_visited s (x :: s_visited s)) x)) r) as [s2 work'] eqn:Em.
   apply mark_callers_t_we in Em. apply IH in H. cbn in Em. destruct Em, H. split; congruence.
+Qed.
+
+Lemma propagate_o_same : forall pord fuel s work s', propagate_o pord fuel s work = Ok s' ->
+  s_nodes s' = s_nodes s /\ s_bwd s' = s_bwd s /\ s_ts s' = s_ts s /\ s_log s' = s_log s /\
+  (forall a b, sdirty s a b -> sdirty s' a b) /\
+  (forall x, In x (s_visited s) -> In x (s_visited s')).
+Proof.
+  intros pord; induction fuel as [|f IH]; intros s work s' H; [discriminate|]. cbn [propagate_o] in H.
+  destruct work as [|x r]; [inversion H; subst; auto 10|].
+  destruct (nmem x (s_visited s)); [eapply IH; eauto|]. cbv zeta in H.
+  destruct (mark_callers (set_visited s (x :: s_visited s)) x (pord (set_visited s (x :: s_visited s)) x (callers_of (set_visited s (x :: s_visited s)) x)) r)
+    as [s2 work'] eqn:Em.
+  apply mark_callers_spec in Em. destruct Em as (_ & B & C & D & E & F & G).
+  apply IH in H. destruct H as (H1 & H2 & H3 & H4 & H5 & H6).
+  cbn [set_visited s_nodes s_bwd s_ts s_log s_visited] in *.
+  split; [congruence|]. split; [congruence|]. split; [congruence|]. split; [congruence|]. split.
+  - intros a b K. apply H5. apply G. left. exact K.
+  - intros y Hy. apply H6. rewrite E. right. exact Hy.
 Qed.
 
 (** * unfolding equations *)
 Section Unfold.
 Variable p : program.
-Variables tord bord : state -> node -> list node -> list node.
+Variables tord bord pord : state -> node -> list node -> list node.
 
-Notation mquery := (query_for_o p None tord bord).
-Notation mexecute := (execute_o p None tord bord).
-Notation meval := (eval_o p None tord bord).
-Notation mrepair := (repair_o p None tord bord).
-Notation mbackward := (backward_o p None tord bord).
+Notation mquery := (query_for_o p None tord bord pord).
+Notation mexecute := (execute_o p None tord bord pord).
+Notation meval := (eval_o p None tord bord pord).
+Notation mrepair := (repair_o p None tord bord pord).
+Notation mbackward := (backward_o p None tord bord pord).
 
 Section Tfc.
 Variables (f : nat) (stk : list node).
@@ -230,8 +248,8 @@ Lemma execute_S : forall f stk c n rc fr0 s,
   let v := fx_value n out fr2 in
   let changed := mx_changed s1 n rc v in
   let tfc_changed := mx_tfc_changed s1 n rc v fr2 in
-  let* s2 := if changed then (if c_follow c then propagate (S f * 4) s1 [n] else propagate_t (S f * 4) s1 [n])
-             else if tfc_changed then propagate_t (S f * 4) s1 [n] else Ok s1 in
+  let* s2 := if changed then (if c_follow c then propagate_o pord (S f * 4) s1 [n] else propagate_t_o pord (S f * 4) s1 [n])
+             else if tfc_changed then propagate_t_o pord (S f * 4) s1 [n] else Ok s1 in
   Ok (marks, set_computed s2 n v fr2 changed rc).
 Proof.
   intros. cbn [execute_o]. unfold mx_tfc_changed, mx_changed, fx_value, fx_prev, x_pedantic, c_follow.
